@@ -192,26 +192,26 @@ func (e *btcEnv) steps(c *corpus, vote func(extra []byte, height uint32, v *poly
 	wid := sha("c16-btc-withdraw")
 	wmsg := ccm.MsgBytes(ccm.Msg(wid, wid, e.bound, chBtc, []byte("btc"), "unlock", wargs))
 	return []step{
-		{"btc: redeem registration (2 of the 3 needed signatures), tx parameters, trust root", func() []ctx {
+		{name: "btc: redeem registration (2 of the 3 needed signatures), tx parameters, trust root", build: func() []ctx {
 			gh := chaincfg.RegressionNetParams.GenesisBlock.Header
 			var hb [4]byte
 			binary.BigEndian.PutUint32(hb[:], btcRootHeight)
 			return []ctx{e.registerRedeem(0, 1), e.setTxParam(2, 2000, 0, 1, 2),
 				ok(on.GenesisTx(c.vals, chBtc, append(ser80(&gh), hb[:]...)), "header_sync.syncGenesisHeader/btc")}
 		}},
-		{"btc: remaining redeem signatures, deposit block header", func() []ctx {
+		{name: "btc: remaining redeem signatures, deposit block header", build: func() []ctx {
 			return []ctx{e.registerRedeem(2, 3), ok(on.HeadersTx(chBtc, ser80(e.dhdr)), "header_sync.syncBlockHeader/btc")}
 		}},
-		{"btc: deposit import", func() []ctx { return []ctx{e.depositImport()} }},
-		{"btc: withdrawal votes up to release (makeBtcTx)", func() []ctx {
+		{name: "btc: deposit import", build: func() []ctx { return []ctx{e.depositImport()} }},
+		{name: "btc: withdrawal votes up to release (makeBtcTx)", build: func() []ctx {
 			var out []ctx
 			for k := 0; k < 4; k++ {
 				out = append(out, vote(wmsg, 500, c.vals[k], "withdraw->btc"))
 			}
 			return out
 		}},
-		{"btc: MultiSign by vault keys 0 and 1", func() []ctx { return []ctx{e.multiSign(c, 0, true), e.multiSign(c, 1, true)} }},
-		{"btc: MultiSign by vault key 2 (complete), key 3 (too late)", func() []ctx {
+		{name: "btc: MultiSign by vault keys 0 and 1", build: func() []ctx { return []ctx{e.multiSign(c, 0, true), e.multiSign(c, 1, true)} }},
+		{name: "btc: MultiSign by vault key 2 (complete), key 3 (too late)", build: func() []ctx {
 			return []ctx{e.multiSign(c, 2, true), e.multiSign(c, 3, false)}
 		}},
 	}
